@@ -84,9 +84,24 @@ let overflow_seen = ref 0
 let overflow_case (_ : string) (_ : string) (_ : string) (_ : string) : string option =
   incr overflow_seen; None
 
+(* the order laws on the six recorded comparisons of a triple, for EVERY arrangement (x,y,z) of
+   (a,b,c): v.(i).(j) is the recorded cmp of the i-th with the j-th string (the generator therefore
+   enumerates multisets {a,b,c}, not ordered triples) *)
+let perms3 = [(0,1,2); (0,2,1); (1,0,2); (1,2,0); (2,0,1); (2,1,0)]
+let order_laws v =
+  let chk (i, j, k) =
+    let xy = v.(i).(j) and yz = v.(j).(k) and xz = v.(i).(k) in
+    if xy <= 0 && yz <= 0 && xz > 0 then Some "not transitive: x<=y, y<=z but x>z"
+    else if xy <= 0 && yz <= 0 && xz = 0 && (xy <> 0 || yz <> 0) then Some "not transitive: x<=y<=z with a strict step but x~z"
+    else if xy = 0 && xz <> yz then Some "equivalent strings compare differently against a third"
+    else None in
+  List.fold_left (fun acc p -> match acc with Some _ -> acc | None -> chk p) None perms3
+
 let spec prop inp out =
   if prop <> "C20" then None else
   let panicked = String.length out >= 6 && String.sub out 0 6 = "panic:" in
+  if out = "hang" then Some "the call does not return (no answer within the 2 s watchdog; a call takes microseconds)" else
+  if out = "hang-skipped" then Some "not run: three earlier cases of this kind did not return (hang)" else
   match words inp with
   | [("Z" | "L" | "T") as op; off; n; mem] ->
     let off = int_of_string off and n = int_of_string n and m = raw mem in
@@ -143,15 +158,16 @@ let spec prop inp out =
     (match List.map int_of_string (words out) with
      | [ab; bc; ac; ba; cb; ca] ->
        (* the order laws are asserted for ALL strings, overflowing digit runs included *)
+       let v = [| [| 0; ab; ac |]; [| ba; 0; bc |]; [| ca; cb; 0 |] |] in
        if List.exists (fun x -> x < -1 || x > 1) [ab; bc; ac; ba; cb; ca] then Some "result outside {-1,0,1}"
        else if ab <> -ba || bc <> -cb || ac <> -ca then Some "not antisymmetric: cmp(x,y) <> -cmp(y,x)"
-       else if ab <= 0 && bc <= 0 && ac > 0 then Some "not transitive: a<=b, b<=c but a>c"
-       else if ab >= 0 && bc >= 0 && ac < 0 then Some "not transitive: a>=b, b>=c but a<c"
-       else if ab <= 0 && bc <= 0 && ac = 0 && (ab <> 0 || bc <> 0) then Some "not transitive: a<=b<=c with a strict step but a~c"
-       else if ab = 0 && ac <> bc then Some "equivalent strings compare differently against a third"
-       else if not (runs_fit a && runs_fit b && runs_fit c) then None
-       else if ab <> key_order a b || bc <> key_order b c || ac <> key_order a c then Some "differs from the token-key order"
-       else None
+       else (match order_laws v with
+       | Some r -> Some r
+       | None ->
+         if not (runs_fit a && runs_fit b && runs_fit c) then None
+         else if ab <> key_order a b || bc <> key_order b c || ac <> key_order a c
+              || ba <> key_order b a || cb <> key_order c b || ca <> key_order c a then Some "differs from the token-key order"
+         else None)
      | _ -> Some "bad output syntax")
   | _ -> None
 
